@@ -476,7 +476,7 @@ def checks():
     return [
         MachineCheck(
             'world', machine, run_case,
-            budget={'quick': (16, 20), 'thorough': (16, 1200)},
+            budget={'quick': (16, 40), 'thorough': (16, 1200)},
             steps=40,
             rule='rule-based state machine over up to 4 live trees, one '
                  'shared DiffXDOMReader and one shared DiffXDOMWriter: '
